@@ -532,6 +532,9 @@ pub fn run(session: &Session) -> i32 {
             }
         }
     }
+    for p in crate::genr::nearmiss::control_placement_programs() {
+        cases.push(json!({"src": "control-placement", "text": p}));
+    }
     for p in import_programs() {
         cases.push(json!({"src": "imports", "text": p}));
     }
